@@ -706,6 +706,13 @@ def _channel_local(body, op):
         pl = cur["pl"]
         rest = [p_ for p_ in pl["p"] if p_ != "deref"]
         ds = body.whole_defs(pl["l"])
+        if len(ds) != 1 and len(rest) >= 2 and isinstance(rest[0], dict) and "dc" in rest[0] and isinstance(rest[1], dict) and "f" in rest[1]:
+            # the payload of `Ok((message, receiver))` after a `?`: the literal(s) of that variant (the Err side holds nothing of ours)
+            lit = body._variant_literal_ops(pl["l"], rest)
+            if lit is not None and len(lit[0]) == 1 and lit[0][0].get("k") != "const":
+                o = lit[0][0]
+                cur = {"k": "copy", "pl": {"l": o["pl"]["l"], "p": list(o["pl"]["p"]) + list(lit[1])}}
+                continue
         if len(ds) != 1:
             return None
         d = ds[0]
@@ -727,6 +734,13 @@ def _channel_local(body, op):
                 continue
             if rv["k"] in ("ref",):
                 cur = {"k": "copy", "pl": {"l": rv["pl"]["l"], "p": list(rv["pl"]["p"]) + rest}}
+                continue
+            if rv["k"] == "agg" and rv.get("what") == "adt" and rv.get("variant") and len(rest) >= 2 and isinstance(rest[0], dict) and rest[0].get("dc") == rv["variant"] \
+                    and isinstance(rest[1], dict) and "f" in rest[1] and rest[1]["f"] < len(rv["ops"]):
+                o = rv["ops"][rest[1]["f"]]
+                if o.get("k") == "const":
+                    return None
+                cur = {"k": "copy", "pl": {"l": o["pl"]["l"], "p": list(o["pl"]["p"]) + rest[2:]}}
                 continue
             if rv["k"] == "agg" and rv.get("what") == "tuple" and rest and isinstance(rest[0], dict) and "f" in rest[0] and rest[0]["f"] < len(rv["ops"]):
                 # the pair a constructor hands back (`(message, receiver)`): the component that is read
